@@ -184,6 +184,11 @@ def linear_directed(rnd, cfg):
                 hw[1] = 1.0
             if sum(tw[: 2 * n_u]) == 0:
                 tw[0] = 1.0
+            if cfg.get("allow_illposed", True) and rnd.random() < 0.12:
+                # weight on an *incompatible* descriptor (same symbol): symbol and id take precedence over list weights, so
+                # generation may refuse (raise) but must never form that bond.  Outside C06's quantifier (not well-posed).
+                tags.add("illposed:list_weight_on_incompatible")
+                tw[2 * rnd.randrange(n_u) + 1] = float(rnd.choice([1, 3]))
             h = _d("<", did, "|" + " ".join(_wnum(rnd, x) for x in hw) + "|")
             t = _d(">", did, "|" + " ".join(_wnum(rnd, x) for x in tw) + "|")
         else:
@@ -377,7 +382,10 @@ def graft_lists(rnd, cfg):
     w3 = rnd.choice(["3", "1", "0.5"])
     dist, fam = make_dist(rnd, 44.0, rnd.choice([3, 5, 8]), cfg.get("family"), cfg.get("safe_dist", False))
     tags.add("family:" + fam)
-    text = ("N#CC(C)(C){[$] O([<|" + w3 + "|])(C([$])C[$]), [>]CCO[<|0 0 0 1 0 " + str(k) + "|] ; [>][H] [$]}" + dist
+    # the end group a list installs during growth carries mass in most runs ([H] weighs nothing)
+    eg = rnd.choice(["[>][H]", "[>]Br", "[>]C", "[>]CO", "[>]N(C)C", "[>]c1ccccc1", "[>]F"])
+    arm = rnd.choice(["[>]CCO", "[>]CC", "[>]C(C)C", "[>]CC(=O)O"])
+    text = ("N#CC(C)(C){[$] O([<|" + w3 + "|])(C([$])C[$]), " + arm + "[<|0 0 0 1 0 " + str(k) + "|] ; " + eg + " [$]}" + dist
             + rnd.choice(["Br", "[H]", "C"]))
     tags.update({"start:prefix", "end:suffix"})
     return text, tags
@@ -391,8 +399,31 @@ def end_transition(rnd, cfg):
     b = rnd.choice(["1", "2", "0.5"])
     dist, fam = make_dist(rnd, unit_mass(u), rnd.choice([2, 4, 7]), cfg.get("family"), cfg.get("safe_dist", False))
     tags.add("family:" + fam)
-    text = "{[] " + u.format("[<]", f"[>|{a} 0 {b} 0|]") + " ; [<|0|][H], [>]N []}" + dist
+    eg = rnd.choice(["[H]", "[H]", "Br", "C", "CO", "c1ccccc1"])
+    text = "{[] " + u.format("[<]", f"[>|{a} 0 {b} 0|]") + " ; [<|0|]" + eg + ", [>]N []}" + dist
     tags.update({"start:end_group", "end:closed"})
+    return text, tags
+
+
+def branched_lists(rnd, cfg):
+    """three-functional units with list weights: a list may install an end group on one branch while growth goes on elsewhere."""
+    tags = {"arch:branched_lists", "weights:list", "hub"}
+    # descriptors: 0 '<' head, 1 '>' tail a, 2 '>' tail b (unit 1); 3 '<', 4 '>' (unit 2); 5 '<' end group; 6 '>' end group
+    e_lt = rnd.choice(ENDS)[0]
+    e_gt = rnd.choice(ENDS)[0]
+    u2 = rnd.choice(UNITS2)[0]
+    wa = [rnd.choice([1, 2, 5]), 0, 0, rnd.choice([0, 1, 3]), 0, rnd.choice([0, 1, 2]), 0]
+    wb = [rnd.choice([0, 1]), 0, 0, rnd.choice([1, 2]), 0, rnd.choice([1, 3]), 0]
+    if sum(wa) == 0:
+        wa[0] = 1
+    la = "|" + " ".join(str(x) for x in wa) + "|"
+    lb = "|" + " ".join(str(x) for x in wb) + "|"
+    unit1 = "[<]CC([>" + la + "])C[>" + lb + "]"
+    unit2 = u2.format("[<]", "[>]")
+    dist, fam = make_dist(rnd, 40.0, rnd.choice([2, 4, 7]), cfg.get("family"), cfg.get("safe_dist", False))
+    tags.add("family:" + fam)
+    text = (rnd.choice(PLAIN) + "{[>] " + unit1 + ", " + unit2 + "; " + e_lt.format("[<]") + ", " + e_gt.format("[>]") + " []}" + dist)
+    tags.update({"start:prefix", "end:closed", "list:to_end_group"})
     return text, tags
 
 
@@ -405,14 +436,36 @@ def multiblock(rnd, cfg):
     for bi in range(n_b):
         n_u = rnd.choice([1, 1, 2])
         units = _units2(rnd, n_u, cfg.get("branchy", False))
-        if sym_mode == "dir":
+        use_lists = sym_mode == "dir" and rnd.random() < 0.35
+        if use_lists:
+            # Markov-style list weights (SI): the descriptor a block hands over then carries a list into the next block
+            tags.add("weights:list")
+            tags.add("handover_descriptor_with_list")
+            n_desc = 2 * n_u
+            utexts = []
+            for t, _ in units:
+                hw = [0.0] * n_desc
+                tw = [0.0] * n_desc
+                for uj in range(n_u):
+                    hw[2 * uj + 1] = float(rnd.choice([0, 1, 3, 7]))
+                    tw[2 * uj] = float(rnd.choice([0, 1, 3, 7]))
+                if sum(hw) == 0:
+                    hw[1] = 1.0
+                if sum(tw) == 0:
+                    tw[0] = 1.0
+                utexts.append(t.format(_d("<", "", "|" + " ".join(_wnum(rnd, x) for x in hw) + "|"),
+                                       _d(">", "", "|" + " ".join(_wnum(rnd, x) for x in tw) + "|")))
+            left, right = "[>]", "[<]"
+            if rnd.random() < 0.3:
+                left = "[>|" + rnd.choice(WEIGHT_TEXTS) + "|]"
+        elif sym_mode == "dir":
             utexts = [t.format(_d("<", "", _w(rnd, 0.2)), _d(">", "", _w(rnd, 0.2))) for t, _ in units]
             left, right = "[>]", "[<]"
         else:
             utexts = [t.format("[$]", "[$]") for t, _ in units]
             left, right = "[$]", "[$]"
         ends = ""
-        if rnd.random() < 0.25:
+        if not use_lists and rnd.random() < 0.25:
             # unused end groups are legal
             ends = "; " + rnd.choice(ENDS)[0].format("[<]" if sym_mode == "dir" else "[$]")
             if sym_mode == "dir":
@@ -461,10 +514,11 @@ ARCHETYPES = {
     "end_transition": end_transition,
     "multiblock": multiblock,
     "segmented": segmented_ids,
+    "branched_lists": branched_lists,
 }
 WEIGHTS = {
     "linear_directed": 5, "undirected": 3, "step_growth": 2, "alternating_ids": 2, "star": 2, "hyperbranched": 2,
-    "graft_lists": 1, "end_transition": 1, "multiblock": 4, "segmented": 1,
+    "graft_lists": 2, "end_transition": 1, "multiblock": 4, "segmented": 1, "branched_lists": 2,
 }
 
 
@@ -517,3 +571,134 @@ CORPUS = [
     "{[]CC([>])(C[<])C(=O)OCC(O)CSc1c(F)cccc1F, CC([>])(C[<])C(=O)OCC(O)CSC(F)(F)F; [>][H], [<][H][]}|gauss(800, 50)|",
     "{[][$|3 4 5 6 0 8|]C([$|4.0|])C=O,[$|6.0|]CC([$|10.1|])CO;[$][H], [$]O[]}|flory_schulz(2e-2)|",
 ]
+
+
+# ---------------------------------------------------------------------------------------------
+# systems (mixtures)
+SOLVENTS = ["CCO", "C1CCOC1", "CCCCC", "O", "CC(=O)C", "c1ccccc1C", "ClC(Cl)Cl", "CN(C)C=O", "CS(=O)C"]
+
+
+def _small_polymer(rnd, cfg):
+    """a short chain component (1-6 units) so that ensembles of a few dozen members stay cheap"""
+    kind = rnd.choice(["linear", "linear", "closed", "dollar", "two_block", "archetype"])
+    fam = cfg.get("family")
+    if kind == "archetype":
+        c = dict(cfg)
+        c["branchy"] = True
+        text, tags = gen_molecule(rnd, c)
+        return text, tags
+    u = rnd.choice(UNITS2)[0]
+    n = rnd.choice([1, 2, 3, 5])
+    dist, f = make_dist(rnd, unit_mass(u), n, fam, cfg.get("safe_dist", False))
+    if kind == "linear":
+        return rnd.choice(PLAIN) + "{[>]" + u.format("[<]", "[>]") + "[<]}" + dist + rnd.choice(PLAIN_SUFFIX), {"arch:sys_linear", "family:" + f}
+    if kind == "closed":
+        return ("{[]" + u.format("[<]", "[>]") + "; " + rnd.choice(ENDS)[0].format("[<]") + ", " + rnd.choice(ENDS)[0].format("[>]") + "[]}"
+                + dist), {"arch:sys_closed", "family:" + f}
+    if kind == "dollar":
+        return ("{[]" + u.format("[$]", "[$]") + "; " + rnd.choice(ENDS)[0].format("[$]") + "[]}" + dist), {"arch:sys_dollar", "family:" + f}
+    u2 = rnd.choice(UNITS2)[0]
+    dist2, f2 = make_dist(rnd, unit_mass(u2), rnd.choice([1, 2, 3]), fam, cfg.get("safe_dist", False))
+    return (rnd.choice(PLAIN) + "{[>]" + u.format("[<]", "[>]") + "[<]}" + dist + "{[>]" + u2.format("[<]", "[>]") + "[<]}" + dist2
+            + rnd.choice(PLAIN_SUFFIX)), {"arch:sys_two_block", "family:" + f, "family:" + f2}
+
+
+def _deterministic_polymer(rnd):
+    """chain whose molecular mass is the same in every generation (zero-width law): composition is then exact"""
+    u = rnd.choice(UNITS2)[0]
+    n = rnd.choice([1, 2, 4, 8, 20, 40])
+    m = unit_mass(u)
+    target = m * (n - 0.5)
+    return "C{[>]" + u.format("[<]", "[>]") + "[<]}|gauss(%r, 0)|C" % round(target, 4), {"arch:sys_deterministic_chain"}
+
+
+def gen_system(rnd, cfg=None, deterministic_mass=False, min_components=1):
+    """(text, tags, system_molweight or None, approx mean masses)."""
+    cfg = cfg or {}
+    n = rnd.choice([c for c in [1, 2, 2, 3, 4] if c >= min_components])
+    comps = []
+    tags = {f"components:{n}"}
+    for i in range(n):
+        if rnd.random() < (0.5 if n > 1 else 0.15):
+            comps.append((rnd.choice(SOLVENTS), {"arch:sys_solvent"}))
+        elif deterministic_mass:
+            comps.append(_deterministic_polymer(rnd))
+        else:
+            comps.append(_small_polymer(rnd, cfg))
+    for _, t in comps:
+        tags |= set(t)
+    # rough member masses to size the system
+    from rdkit import Chem
+    from rdkit.Chem import Descriptors
+
+    def approx(text):
+        m = Chem.MolFromSmiles(text) if "{" not in text else None
+        return Descriptors.HeavyAtomMolWt(m) if m is not None else 250.0
+
+    sizes = [approx(t) for t, _ in comps]
+    members = rnd.choice([2, 4, 8, 15, 30])
+    total = max(sizes) * members
+    form = rnd.choice(["abs", "abs", "pct", "sysarg"]) if n > 1 else rnd.choice(["abs", "abs", "sysarg"])
+    raw = [rnd.choice([1, 1, 2, 5, 9, 20]) for _ in range(n)]
+    fr = [r / sum(raw) for r in raw]
+    text = ""
+    sysw = None
+    if form == "abs":
+        for (t, _), f in zip(comps, fr):
+            text += t + ".|%s|" % _f(rnd, round(total * f, 2))
+        tags.add("mix:absolute")
+    elif form == "pct":
+        # n-1 percentages and one absolute mass (its percentage is inferred)
+        k_abs = rnd.randrange(n)
+        pcts = [round(100 * f, 1) for f in fr]
+        pcts[k_abs] = round(100 - sum(p for i, p in enumerate(pcts) if i != k_abs), 1)
+        if pcts[k_abs] <= 0:
+            return gen_system(rnd, cfg, deterministic_mass, min_components)
+        for i, (t, _) in enumerate(comps):
+            if i == k_abs:
+                text += t + ".|%s|" % _f(rnd, round(total * pcts[i] / 100.0, 2))
+            else:
+                text += t + ".|%s%%|" % repr(pcts[i])
+        tags.add("mix:percent")
+    else:
+        if n == 1:
+            text = comps[0][0] + ".|100%|"
+        else:
+            pcts = [round(100 * f, 1) for f in fr]
+            pcts[-1] = round(100 - sum(pcts[:-1]), 1)
+            if pcts[-1] <= 0:
+                return gen_system(rnd, cfg, deterministic_mass, min_components)
+            for (t, _), p in zip(comps, pcts):
+                text += t + ".|%s%%|" % repr(p)
+        sysw = round(total, 1)
+        tags.add("mix:system_mass_argument")
+    return text, tags, sysw
+
+
+NON_GENERABLE_SYSTEMS = [
+    "CCO",
+    "CCO.|50%|CC",
+    "CCO.|20%|C{[>][<]CC[>][<]}|gauss(100, 10)|C.|30%|O",
+    "C{[>][<]CC[>][<]}|gauss(100, 10)|C",
+    "CCO.|20%|CC.|80%|",
+]
+
+
+def token_budget_ok(system_text, limit=24):
+    """The library labels residues with one of 26 letters (a bound of the implementation, stated in DESIGN.md): keep the
+    number of residue ids a system consumes (tokens + re-created prefix / connector tokens) below it."""
+    from . import reader
+    from .notation import Tok
+
+    try:
+        ast = reader.read_system(system_text)
+    except Exception:
+        return False
+    n = 0
+    for m in ast.mols:
+        for e in m.elements:
+            if isinstance(e, Tok):
+                n += 1 + (1 if any(not d.explicit for d in e.descs) else 0) + 1
+            else:
+                n += len(e.repeats) + len(e.ends)
+    return n <= limit
